@@ -87,12 +87,16 @@ let handle (line : string) : string =
                put_res b r;
                Buffer.add_string b (Printf.sprintf "@%x" (int_of_big_nat off))) l;
            Buffer.contents b)
-  | "RC" :: _src :: _comp :: chunks :: reqs :: plains :: complens :: [] ->
+  | "RC" :: _src :: comp :: chunks :: reqs :: plains :: complens :: [] ->
       (* the model of ReadCompressed: members = (compressed length, plaintext); the compressed bytes themselves only matter
          through their number; the decompressor oracle is derived from the request sizes (any oracle gives the same answer) *)
       let plains = List.map (fun h -> bytes_of_hex (if h = "" then "-" else h)) (String.split_on_char ',' plains) in
       let lens = List.map int_of_big_nat (numlist complens) in
-      let members = List.map2 (fun p l -> { m_comp = List.init l (fun _ -> byte_tab.(0)); m_plain = p }) plains lens in
+      (* the members' real compressed bytes: the model examines the magic of every member after the first *)
+      let call = Array.of_list (bytes_of_hex comp) in
+      let off = ref 0 in
+      let members = List.map2 (fun p l -> let c = Array.to_list (Array.sub call !off l) in off := !off + l;
+                                { m_comp = c; m_plain = p }) plains lens in
       let reqs = numlist reqs in
       let k = ref 7 in
       let deco = List.init 400 (fun _ -> k := (!k * 1103515245 + 12345) land 0x3fffffff;
